@@ -55,9 +55,7 @@ def check_one(case):
     if out.kind == "reject":
         return {"outcome": "reject", "nt": False, "viol": [], "tr": ntr, "unexp": True, "why": out.msg[:160]}
     obs = O.Obs(out.xform)
-    import contextlib
-
-    with (grid.langs(C07.CASE_LANGS) if case.get("langs") == "case" else contextlib.nullcontext()):
+    with C07.contexts(case):
         exp, langs, bearing = grid.expected(cells, case["dl"], ref=case["ref"])
         got, olangs = grid.observed(obs, langs)
     viol = []
